@@ -89,7 +89,7 @@ Plan generate(uint64_t seed, uint64_t run, bool thorough) {
     p.set("k", r.range(0, 3), 0);
     p.set("kbig", r.chance(0.15) ? 1 : 0, 0);      // ILU(k >= n)
     p.set("damping16", r.chance(0.5) ? 16 : r.range(8, 20), 8);
-    p.set("degree", r.range(1, 6), 1); p.set("power_iters", r.chance(0.3) ? r.range(3, 10) : 0, 0); p.set("cheb_scale", r.range(0, 1), 0);
+    p.set("degree", r.range(1, 6), 1); p.set("power_iters", r.chance(0.3) ? r.range(3, 10) : 0, 0); p.set("cheb_scale", r.range(0, 1), 0); p.set("cheb_hi", r.range(0, 3), 0); p.set("cheb_lo", r.range(0, 3), 0);
     p.set("unsorted", r.chance(0.3) ? 1 : 0, 0);     // rows stored diagonal-first (smoothers that do not document sorted rows)
     p.set("block", r.chance(0.2) ? 1 : 0, 0);        // block-valued ILU exactness instead of the scalar worlds
     p.set("nt", r.chance(0.25) ? draw_nt(r, 1, 3) : draw_nt(r, 4, 32), 1);
@@ -125,24 +125,46 @@ Result execute(const Plan &p) {
         };
         auto record = [&](auto &R) { if (outs) { std::vector<double> x = w.x0; sweep(R, w, x, true, 0); sweep(R, w, x, false, 0); outs->push_back(x); } };
         // (LU)_ij = a_ij on the pattern of A; optionally everywhere
-        auto lu_identity = [&](auto &R, bool everywhere, const char *clause) {
+        // apply() (the smoother used as a stand-alone preconditioner) is consistent with the sweeps: it overwrites x with
+        // M^-1 f, i.e. one pre-sweep from x = 0 (Gauss-Seidel: forward then backward sweep; the ILU family: without the damping)
+        auto apply_check = [&](auto &R, int mode, const char *which) {
+            std::vector<double> xa(n), xz(n, 0.0), tmp(n);
+            for (long i = 0; i < n; ++i) xa[i] = (i % 2) ? std::numeric_limits<double>::quiet_NaN() : std::numeric_limits<double>::infinity();
+            R.apply(*w.M, w.f, xa);
+            R.apply_pre(*w.M, w.f, xz, tmp); if (mode == 1) R.apply_post(*w.M, w.f, xz, tmp);
+            if (mode == 2) for (long i = 0; i < n; ++i) xa[i] *= (double)(float)damping;
+            double d = max_abs_diff(xa, xz);
+            if (!(d <= 1e-11 * (1 + max_abs(xz)))) res.fail(sig("apply-equals-sweep-from-zero", which, fmt("apply() differs from the sweep(s) started at x = 0 by %.3g (scale %.3g)", d, max_abs(xz))));
+            res.counts["apply_consistency_checked"]++;
+        };
+        auto lu_identity = [&](auto &R, bool everywhere, const char *clause, const std::vector<char> *mask = 0) {
             if (n > 40) return;
             Eigen::MatrixXd B = extract(R, w, true), I = Eigen::MatrixXd::Identity(n, n);
             Eigen::FullPivLU<Eigen::MatrixXd> lu(B); if (!lu.isInvertible()) { res.fail(sig("ilu-pattern-identity", clause, "extracted M^-1 is singular")); return; }
             Eigen::MatrixXd LU = lu.inverse() * damping, D = edense(w.A);
             double tol = 1e-8 * amax * std::max(1.0, 1.0 / lu.rcond() * 1e-8);
             if (everywhere) { double d = (LU - D).cwiseAbs().maxCoeff(); if (!(d <= tol)) res.fail(sig("ilu-exact-when-factors-fit", clause, fmt("max |LU - A| = %.3g (tol %.3g)", d, tol))); return; }
+            if (mask) { for (long i = 0; i < n; ++i) for (long j = 0; j < n; ++j) if ((*mask)[(size_t)i * n + j]) { double d = std::fabs(LU(i, j) - D(i, j)); if (!(d <= tol)) { res.fail(sig("ilu-pattern-identity", clause, fmt("(LU)(%ld,%ld) = %.17g, a = %.17g", i, j, LU(i, j), D(i, j)))); return; } }
+                res.counts["lu_identities_checked_on_power_pattern"]++; return; }
             for (long i = 0; i < n; ++i) for (ptrdiff_t j = w.A.ptr[i]; j < w.A.ptr[i+1]; ++j) { double d = std::fabs(LU(i, w.A.col[j]) - D(i, w.A.col[j])); if (!(d <= tol)) { res.fail(sig("ilu-pattern-identity", clause, fmt("(LU)(%ld,%ld) = %.17g, a = %.17g", i, (long)w.A.col[j], LU(i, w.A.col[j]), D(i, w.A.col[j])))); return; } }
             res.counts["lu_identities_checked"]++;
         };
+        // ILUP is ILU(0) on the symbolic pattern of A^(k+1): (LU)_ij = a_ij (zero outside pattern(A)) on that whole pattern
+        auto ilup_power_pattern = [&](auto &rs) {
+            if (n > 40) return;
+            std::vector<char> S((size_t)n * n, 0); for (long i = 0; i < n; ++i) for (ptrdiff_t j = w.A.ptr[i]; j < w.A.ptr[i+1]; ++j) S[(size_t)i * n + w.A.col[j]] = 1;
+            std::vector<char> Pk = S;
+            for (long q = 0; q < std::min<long>(k, 3); ++q) { std::vector<char> N((size_t)n * n, 0); for (long i = 0; i < n; ++i) for (long l = 0; l < n; ++l) if (Pk[(size_t)i * n + l]) for (long j = 0; j < n; ++j) if (S[(size_t)l * n + j]) N[(size_t)i * n + j] = 1; Pk.swap(N); }
+            lu_identity(rs, false, "pattern-of-A^(k+1)", &Pk);
+        };
         bool exact_shape = shape != 0;
         switch (rl) {
-        case R_JACOBI: { typedef rx::damped_jacobi<DBackend> R; R::params pr; pr.damping = (float)damping; R r(*w.M, pr, bp); fixed_point(r, "damped_jacobi"); record(r);
+        case R_JACOBI: { typedef rx::damped_jacobi<DBackend> R; R::params pr; pr.damping = (float)damping; R r(*w.M, pr, bp); fixed_point(r, "damped_jacobi"); record(r); apply_check(r, 2, "damped_jacobi");
             std::vector<double> x = w.x0; sweep(r, w, x, true, 0);
             for (long i = 0; i < n; ++i) { long double t = w.f[i], d = 1; for (ptrdiff_t j = w.A.ptr[i]; j < w.A.ptr[i+1]; ++j) { t -= (long double)w.A.val[j] * w.x0[w.A.col[j]]; if (w.A.col[j] == i) d = w.A.val[j]; }
                 double want = (double)(w.x0[i] + (long double)(double)pr.damping / d * t); if (!(std::fabs(x[i] - want) <= 1e-12 * (1 + std::fabs(want)))) { res.fail(sig("definition", "x+omega*D^-1*(f-Ax)", fmt("row %ld: %.17g, definition %.17g", i, x[i], want))); break; } }
             break; }
-        case R_GS: { typedef rx::gauss_seidel<DBackend> R; R::params ps, pp; ps.serial = true; pp.serial = false; R rs(*w.M, ps, bp), rp(*w.M, pp, bp); fixed_point(rp, "gauss_seidel"); record(rp);
+        case R_GS: { typedef rx::gauss_seidel<DBackend> R; R::params ps, pp; ps.serial = true; pp.serial = false; R rs(*w.M, ps, bp), rp(*w.M, pp, bp); fixed_point(rp, "gauss_seidel"); record(rp); apply_check(rp, 1, "gauss_seidel"); apply_check(rs, 1, "gauss_seidel-serial");
             for (int pre = 1; pre >= 0; --pre) {
                 std::vector<double> xs = w.x0, xp = w.x0, xr = w.x0; sweep(rs, w, xs, pre, 0); sweep(rp, w, xp, pre, 0);
                 if (first_diff(xs, xp) != -1) { long d = first_diff(xs, xp); res.fail(sig("parallel-equals-serial", pre ? "forward" : "backward", fmt("nt=%d row %ld: serial %.17g level-scheduled %.17g", nt, d, xs[d], xp[d]))); }
@@ -152,12 +174,12 @@ Result execute(const Plan &p) {
             }
             if (!rp.is_serial) res.counts["gs_parallel_path"]++;
             break; }
-        case R_SPAI0: { typedef rx::spai0<DBackend> R; R r(*w.M, R::params(), bp); fixed_point(r, "spai0"); record(r);
+        case R_SPAI0: { typedef rx::spai0<DBackend> R; R r(*w.M, R::params(), bp); fixed_point(r, "spai0"); record(r); apply_check(r, 0, "spai0");
             std::vector<double> x = w.x0; sweep(r, w, x, true, 0);
             for (long i = 0; i < n; ++i) { long double t = w.f[i], num = 0, den = 0; for (ptrdiff_t j = w.A.ptr[i]; j < w.A.ptr[i+1]; ++j) { t -= (long double)w.A.val[j] * w.x0[w.A.col[j]]; den += (long double)w.A.val[j] * w.A.val[j]; if (w.A.col[j] == i) num += w.A.val[j]; }
                 double want = (double)(w.x0[i] + num / den * t); if (!(std::fabs(x[i] - want) <= 1e-12 * (1 + std::fabs(want)))) { res.fail(sig("definition", "row-wise-least-squares-diagonal", fmt("row %ld: %.17g, definition %.17g", i, x[i], want))); break; } }
             break; }
-        case R_SPAI1: { typedef rx::spai1<DBackend> R; R r(*w.M, R::params(), bp); fixed_point(r, "spai1"); record(r);
+        case R_SPAI1: { typedef rx::spai1<DBackend> R; R r(*w.M, R::params(), bp); fixed_point(r, "spai1"); record(r); apply_check(r, 0, "spai1");
             if (n <= 40) { Eigen::MatrixXd M = extract(r, w, true), D = edense(w.A), G = (M * D - Eigen::MatrixXd::Identity(n, n)) * D.transpose();
                 double sc = D.cwiseAbs().maxCoeff(); sc = sc * sc;
                 for (long i = 0; i < n; ++i) for (ptrdiff_t j = w.A.ptr[i]; j < w.A.ptr[i+1]; ++j) if (!(std::fabs(G(i, w.A.col[j])) <= 1e-9 * sc * (1 + M.row(i).cwiseAbs().maxCoeff()))) { res.fail(sig("definition", "least-squares-normal-equations", fmt("row %ld, pattern column %ld: gradient %.3g", i, (long)w.A.col[j], G(i, w.A.col[j])))); i = n; break; }
@@ -165,22 +187,40 @@ Result execute(const Plan &p) {
                 Eigen::MatrixXd P = Eigen::MatrixXd::Zero(n, n); for (long i = 0; i < n; ++i) for (ptrdiff_t j = w.A.ptr[i]; j < w.A.ptr[i+1]; ++j) P(i, w.A.col[j]) = 1;
                 for (long i = 0; i < n; ++i) for (long j = 0; j < n; ++j) if (P(i, j) == 0 && M(i, j) != 0) { res.fail(sig("definition", "spai1-pattern", fmt("M(%ld,%ld) = %.3g outside the pattern of A", i, j, M(i, j)))); i = n; break; } }
             break; }
-        case R_CHEB: { typedef rx::chebyshev<DBackend> R; R::params pr; pr.degree = (unsigned)p.get("degree"); pr.power_iters = (int)p.get("power_iters"); pr.scale = p.get("cheb_scale") != 0; R r(*w.M, pr, bp); fixed_point(r, "chebyshev"); record(r);
+        case R_CHEB: { typedef rx::chebyshev<DBackend> R; R::params pr; pr.degree = (unsigned)p.get("degree"); pr.power_iters = (int)p.get("power_iters"); pr.scale = p.get("cheb_scale") != 0;
+            { static const float hs[] = { 1.0f, 1.0f, 1.1f, 1.25f }, ls[] = { 1.0f / 30, 1.0f / 30, 0.1f, 0.25f }; pr.higher = hs[p.get("cheb_hi") % 4]; pr.lower = ls[p.get("cheb_lo") % 4]; }
+            R r(*w.M, pr, bp); fixed_point(r, "chebyshev"); record(r); apply_check(r, 0, "chebyshev");
+            // definition: after the sweep the error is q(A') e with q(t) = T_d((d - t)/c) / T_d(d/c), A' = A or D^-1 A, [lo, hi] from the
+            // Gershgorin bound (power_iters = 0): evaluated with the matrix Chebyshev recurrence on a dense copy
+            if (pr.power_iters == 0 && n <= 48) {
+                Eigen::MatrixXd D = edense(w.A), Ap = D; double hi = 0;
+                for (long i = 0; i < n; ++i) { double s = 0, dia = 1; for (long j = 0; j < n; ++j) { s += std::fabs(D(i, j)); } dia = D(i, i); if (pr.scale) { Ap.row(i) /= dia; s *= std::fabs(1 / dia); } hi = std::max(hi, s); }
+                double lo = hi * pr.lower; hi *= pr.higher; double dd = 0.5 * (hi + lo), cc = 0.5 * (hi - lo);
+                Eigen::MatrixXd Z = (dd * Eigen::MatrixXd::Identity(n, n) - Ap) / cc, T0 = Eigen::MatrixXd::Identity(n, n), T1 = Z; double t0 = 1, t1 = dd / cc;
+                for (unsigned k = 1; k < pr.degree; ++k) { Eigen::MatrixXd T2 = 2 * Z * T1 - T0; T0 = T1; T1 = T2; double t2 = 2 * (dd / cc) * t1 - t0; t0 = t1; t1 = t2; }
+                Eigen::MatrixXd Q = T1 / t1;
+                std::vector<double> xo = w.x0; sweep(r, w, xo, true, 0);
+                Eigen::VectorXd e0(n), e1(n); for (long i = 0; i < n; ++i) { e0[i] = w.x0[i] - w.xs[i]; e1[i] = xo[i] - w.xs[i]; }
+                Eigen::VectorXd want = Q * e0; double dv = (e1 - want).cwiseAbs().maxCoeff(), sc = Q.cwiseAbs().rowwise().sum().maxCoeff() * e0.cwiseAbs().maxCoeff() + xscale;
+                if (!(dv <= 1e-9 * sc)) res.fail(sig("definition", "chebyshev-polynomial-of-degree-d", fmt("degree %u, [lo, hi] = [%.6g, %.6g]%s: error after the sweep differs from q(A) e by %.3g (scale %.3g)", pr.degree, lo, hi, pr.scale ? " scaled" : "", dv, sc)));
+                res.counts["chebyshev_polynomial_checked"]++;
+            }
             // the sweep is affine in x: S(x) - x* = Q (x - x*) for a fixed matrix Q, so S((x0+x*)/2) is the midpoint of S(x0) and x*
             std::vector<double> a = w.x0, m(n); sweep(r, w, a, true, 0); for (long i = 0; i < n; ++i) m[i] = 0.5 * (w.x0[i] + w.xs[i]); sweep(r, w, m, true, 0);
             double worst = 0, sc = 1 + max_abs(a); for (long i = 0; i < n; ++i) worst = std::max(worst, std::fabs(m[i] - 0.5 * (a[i] + w.xs[i])));
             if (!(worst <= 1e-9 * sc)) res.fail(sig("definition", "polynomial-in-A", fmt("sweep is not affine about the exact solution: deviation %.3g", worst)));
             break; }
-        #define ILU_BLOCK(T, SETUP, PATTERN_OK, EXACT_OK) { typedef rx::T<DBackend> R; R::params ps, pp; SETUP; ps.damping = pp.damping = (float)damping; ps.solve.serial = true; pp.solve.serial = false; \
+        #define ILU_BLOCK(T, SETUP, PATTERN_OK, EXACT_OK, EXTRA) { typedef rx::T<DBackend> R; R::params ps, pp; SETUP; ps.damping = pp.damping = (float)damping; ps.solve.serial = true; pp.solve.serial = false; \
             R rs(*w.M, ps, bp), rp(*w.M, pp, bp); fixed_point(rp, #T); record(rp); \
             std::vector<double> xs = w.x0, xp = w.x0; sweep(rs, w, xs, true, 0); sweep(rp, w, xp, true, 0); \
             { double d = max_abs_diff(xs, xp); if (!(d <= 1e-10 * (1 + max_abs(xs)))) res.fail(sig("parallel-equals-serial", "level-scheduled-triangular-solve", fmt("nt=%d: max difference %.3g", nt, d))); } \
             res.counts["ilu_parallel_path"]++; damping = (double)(float)damping; \
-            if (PATTERN_OK) lu_identity(rs, false, "pattern-of-A"); if (EXACT_OK) lu_identity(rs, true, "exact-factors-fit"); }
-        case R_ILU0: ILU_BLOCK(ilu0, (void)0, true, exact_shape) break;
-        case R_ILUK: ILU_BLOCK(iluk, ps.k = pp.k = (int)k, true, exact_shape || k > n) break;
-        case R_ILUP: ILU_BLOCK(ilup, ps.k = pp.k = (int)std::min<long>(k, 3), true, exact_shape) break;
-        default:     ILU_BLOCK(ilut, ps.p = pp.p = exact_shape ? 1000.0 : 2.0 + (double)k; ps.tau = pp.tau = exact_shape ? 0.0 : 0.01, false, exact_shape) break;
+            apply_check(rs, 2, #T "-serial"); apply_check(rp, 2, #T); \
+            if (PATTERN_OK) lu_identity(rs, false, "pattern-of-A"); if (EXACT_OK) lu_identity(rs, true, "exact-factors-fit"); EXTRA; }
+        case R_ILU0: ILU_BLOCK(ilu0, (void)0, true, exact_shape, (void)0) break;
+        case R_ILUK: ILU_BLOCK(iluk, ps.k = pp.k = (int)k, true, exact_shape || k > n, (void)0) break;
+        case R_ILUP: ILU_BLOCK(ilup, ps.k = pp.k = (int)std::min<long>(k, 3), true, exact_shape, ilup_power_pattern(rs)) break;
+        default:     ILU_BLOCK(ilut, ps.p = pp.p = exact_shape ? 1000.0 : 2.0 + (double)k; ps.tau = pp.tau = exact_shape ? 0.0 : 0.01, false, exact_shape, (void)0) break;
         }
     };
 
